@@ -1163,6 +1163,10 @@ def _block(w, tc, stmts, rec, made):
             w.make_leaf(tc, st[2], made)
         elif op == "iv":
             rec.append(w.item_value(tc, st))
+        elif op == "cancel":
+            b = w.active.get(st[2])
+            if b is not None:
+                b.cancel()
         elif op == "ddirty":
             w.dd_dirty(st[2], st[3])
         else:
